@@ -32,7 +32,7 @@ var c01TotalExceptions = map[string]string{
 	"bounds|lib/script.evalScript|alloc|make((*lib/script.scrStack).popInt(param#1, ((param#3 & 64) != 0)))":          "OP_ROLL: n < stack.size() is tested just before, and the combined stack size is kept <= 1000 by the test after every opcode (R-C01-rules) and by the tapscript initial-stack rule",
 	"bounds|lib/script.evalScript|progress|loop (phi >= 0)":                                                           "OP_ROLL: counts down from n-1 with n < stack.size() <= 1000",
 	"bounds|(*lib/script.scrStack).pushInt|progress|loop (phi != 0)":                                                  "shifts a value right by 8 bits per iteration; the values pushed are results of arithmetic on at most 4-byte (CHECKSIGADD: 4-byte plus one) script numbers, so |val| < 2^33 and the negation above cannot overflow",
-	"bounds|(*lib/script.scrStack).copy_from|index|param#0.data[(phi + 1)]":                                           "s.data was allocated two lines above with len(x.data) and i ranges over x.data",
+	"bounds|(*lib/script.scrStack).copy_from|index|param#0.data[phi]":                                                 "s.data was allocated two lines above with len(x.data) and i ranges over x.data",
 	"bounds|lib/script.VerifyTxScript|index|param#1.Tx.SegWit[param#1.Idx]":                                           "i is SigChecker.Idx, set by the callers to the index of an existing input; Tx.SegWit, when not nil, has one entry per input (btc.NewTx)",
 	"bounds|(*lib/script.SigChecker).ExecuteWitnessScript|progress|loop (phi < (*lib/script.scrStack).size(param#1))": "i counts up to the number of witness items, which is bounded by the transaction size",
 }
